@@ -1,6 +1,7 @@
 import RpcVerif.Lemmas.ConnProps
 import RpcVerif.Lemmas.ServerInv
 import RpcVerif.Generated.ConnFacts
+import RpcVerif.Lemmas.LinkOrder
 /-
   C05 — pipelining executes and completes a connection's calls in order.
   Client half (automaton K) here; the server half is in Props/C05 below once the server
@@ -69,5 +70,30 @@ theorem C05_poll_mode_is_the_same_automaton : Gen.pollReadAndDispatchUnderReceiv
     the sweep fails the pending calls in sequence-number order (facts read from conn.go). -/
 theorem C05_client_source_facts :
     (Gen.connCompletesThroughOrderedQueue && Gen.connSweepsInSequenceOrder) = true := by decide
+
+/-! ### end to end, over the product L = K ‖ lossy FIFO link ‖ S (no hypothesis on the peer) -/
+
+/-- With client pipelining, sequence numbers are handed out in the order the calls were started. -/
+theorem C05_sequence_numbers_follow_start_order {cfg : Cfg} {tr : List Ev} {s : State} (h : Accepts (init cfg) tr s)
+    (hp : s.cfg.pipe = true) : (s.writes.map (·.1)).Sublist s.ids :=
+  writes_in_start_order h hp
+
+/-- The requests the server reads arrive in the order the client registered them (their sequence
+    numbers increase strictly), whatever is lost on the way. -/
+theorem C05_requests_arrive_in_issue_order {cfg : L.Cfg} {tr : List L.Ev} {s : L.State} (h : L.Accepts (L.init cfg) tr s) :
+    (s.s.reqs.map (·.seq)).Pairwise (· < ·) :=
+  L.requests_in_issue_order h
+
+/-- With server pipelining the handlers of a connection are entered in the order in which the
+    client registered the calls, their responses are written in that order, and they reach the
+    client in that order — every interleaving of both ends, every loss pattern. Together with
+    `C05_client_fifo` (completions are signalled in the order they were determined) this is C05 for
+    calls answered by the server. -/
+theorem C05_end_to_end {cfg : L.Cfg} {tr : List L.Ev} {s : L.State} (h : L.Accepts (L.init cfg) tr s)
+    (hp : cfg.s.pipe = true) :
+    s.s.execs.Pairwise (· < ·) ∧
+    ((s.s.resps.filter (fun p => s.s.jobs.any (fun j => j.req.seq == p.seq))).map (·.seq)).Pairwise (· < ·) ∧
+    ((s.k.fed.filter (fun f => s.s.jobs.any (fun j => j.req.seq == f.seq))).map (·.seq)).Pairwise (· < ·) :=
+  ⟨L.executed_in_issue_order h hp, L.job_responses_in_issue_order h hp, L.job_responses_reach_the_client_in_order h hp⟩
 
 end RpcVerif.Props
